@@ -527,7 +527,7 @@ CHECK = Check(
         "negative min / max cannot be written in a rule string (werkzeug's converter-argument grammar has no sign), so signed converters are exercised with non-negative bounds",
         "known finding F04b: build() prefers the rule with more arguments, so build(match(url)) can be another rule's URL when the endpoint's rules have unequal argument sets (witness build_match_fixpoint_map_level_false); defaults siblings are generated with equal and with unequal argument sets, with shared and with their own literal first segment",
         "F04a (AnyConverter.to_url returned the item unquoted) is repaired in /repo (3fc8bd3): the model quotes any-items with the BaseConverter safe set, toPython_toUrl_any is full strength, the former failing inputs are corpus regressions of both streams",
-        "match_build is proved at rule level (rule_build_match_partial: every rule of the grammar without subdomain rule; the rule's own parts admit what it builds, groups = decoded converter outputs) and at map level on the decoded path (match_build_partial: on a map where no other rule admits the path - e.g. distinct literal first segments, walkVia_none_of_first_literal - the matcher returns that rule with exactly the built values plus defaults; build_selects_suitable_rule: MapAdapter.build takes the URL of a suitable rule of the endpoint); build_match_fixpoint is proved for the selected rule (build_match_fixpoint_partial). Not proved, stream-validated: the URL plumbing around the path (script root, host -> subdomain, query cut) and that build selects the same rule again for the matched values",
+        "match_build is proved at rule level (rule_build_match_partial: every rule of the grammar without subdomain rule; the rule's own parts admit what it builds, groups = decoded converter outputs) and at map level on the decoded path (match_build_partial: on a map where no other rule admits the path - e.g. distinct literal first segments, walkVia_none_of_first_literal - the matcher returns that rule with exactly the built values plus defaults; build_selects_suitable_rule: MapAdapter.build takes the URL of a suitable rule of the endpoint); the same on the full URL text MapAdapter.build returns - relative or external, with or without query - read back the way a server does (match_build_url_partial; subdomain maps, no host_matching); build_match_fixpoint is proved for the selected rule (build_match_fixpoint_partial). That build selects the same rule again for the matched values is false in general (F04b; also two rules of one endpoint with crossed variable/default arguments give two URLs for the same arguments) and is validated by the stream on the generated shapes only",
     ],
     trusted_extra=["CPython urllib.parse / int / float / uuid for the modelled primitives (validated by the streams, not verified)"],
     quick_budget=5000,
@@ -536,7 +536,7 @@ CHECK = Check(
 
 MANIFEST = {
     "level_text": "Machine-checked Lean 4 theorems about the model of URL building: percent-decoding undoes the builder's quoting for every text (unquote_quote: decide over all 256 bytes lifted to all strings by induction, UTF-8 round trip from Lean core), and to_python(unquote(to_url(v))) = v for every converter on its canonical domain - strings and paths (all text), ints incl. signed and zero-padded fixed_digits with min/max (decimal printing and reading proved inverse over the generated Unicode digit table), uuid, any, floats as canonical decimal text; and at rule level the rule's own compiled parts directly admit the percent-decoded path the rule builds, extracting exactly the decoded converter outputs (rule_build_match_partial: isolating converters and one path converter). The map-level build/match laws are validated by a differential stream over non-overlapping maps (model vs real code, character for character) with the property oracle on the real code.",
-    "level_note": "Trusted: Lean kernel; extract.py; harness; CPython urllib.parse/int/float/uuid (modelled, stream-validated). Partial: match_build is proved per converter, per rule and at map level on the decoded path for non-overlapping maps; build_match_fixpoint for the selected rule; URL plumbing and re-selection of the rule are stream-validated only; float <-> text is Python's. Known finding F04b.",
+    "level_note": "Trusted: Lean kernel; extract.py; harness; CPython urllib.parse/int/float/uuid (modelled, stream-validated). Partial: match_build is proved per converter, per rule and at map level on the decoded path for non-overlapping maps; build_match_fixpoint for the selected rule; re-selection of the rule for the converse law is stream-validated only (false in general: F04b); float <-> text is Python's. Known finding F04b.",
     "technique": "Lean 4 proof (decide +kernel over all bytes, induction over byte/digit lists, core UTF-8 and Nat.toDigits lemmas) + model/code correspondence",
     "design_ref": "DESIGN.md section 4, C04",
 }
